@@ -284,7 +284,7 @@ func c13(run *ev.Run, tier string) {
 		j := jobs[ji]
 		c := baseCfg(j.withBase)
 		c.Overrides = map[string]*nfpm.Overridables{}
-		other := formats[(indexOf(formats, j.f)+1)%len(formats)]
+		other := formats[(indexOf(formats, j.f)+1+len(formats))%len(formats)]
 		if j.placement == "own" || j.placement == "both" {
 			o := &nfpm.Overridables{}
 			set(o, j.l, "ov")
@@ -667,7 +667,7 @@ func indexOf(xs []string, x string) int {
 			return i
 		}
 	}
-	return 0
+	return -1
 }
 
 func mapVals(m map[string]*nfpm.Overridables) []*nfpm.Overridables {
